@@ -27,6 +27,14 @@ func Root() string {
 	return "/verif"
 }
 
+// Repo is the dnsrocks module directory under test (normally /repo/dnsrocks).
+func Repo() string {
+	if r := os.Getenv("VERIF_REPO"); r != "" {
+		return r
+	}
+	return "/repo/dnsrocks"
+}
+
 // Violation is one failing case, identified by a canonical fingerprint of its
 // minimal form (so that known-findings can name it precisely).
 type Violation struct {
@@ -197,6 +205,9 @@ func (r *Run) Finish() {
 		}
 	}
 	evdir := filepath.Join(Root(), "evidence")
+	if e := os.Getenv("VERIF_EVIDENCE"); e != "" {
+		evdir = e
+	}
 	os.MkdirAll(filepath.Join(evdir, "replays"), 0o755)
 	var knownOut []map[string]interface{}
 	for i, k := range known {
